@@ -78,6 +78,8 @@ def check(run):
     _grid_isel(run, P)
     _slice_from_grid(run, P)
     _accessors(run, P)
+    _isel_gets_indices(run, P)
+    _cross_section_source(run, P)
     _lat_scan(run, P)
     _edge_node_z(run, P)
 
@@ -911,3 +913,108 @@ def _edge_node_z(run, P):
         run.violation("IDX/edge-node-z", c, where(g, n), f"edge_node_z passes through {norm(n)[:60]}: not the stored node_z gathered by edge_node_connectivity - values that lie exactly on a queried parallel no longer compare equal to sin(lat)")
     else:
         run.incomplete("IDX/edge-node-z", c, where(f), "gather node_z[edge_node_connectivity] not found")
+
+
+def _isel_gets_indices(run, P):
+    """Grid.isel(n_face=..|n_node=..|n_edge=..) takes element INDICES: _slice_face_indices casts its argument with np.asarray(.., dtype=INT_DTYPE), which turns a boolean
+    mask into the indices 0 and 1.  In the subset / cross-section accessors the argument must therefore be an index array (argwhere / flatnonzero / where()[0] /
+    set operations on such / a tree query), not the mask it was computed from."""
+    from ..astutil import LocalDefs
+    MASK_FUNCS = {"logical_and", "logical_or", "logical_not", "logical_xor", "isin", "isnan", "isclose", "zeros_like", "ones_like"}
+    INDEX_FUNCS = {"argwhere", "flatnonzero", "intersect1d", "union1d", "setdiff1d", "unique", "arange", "argsort", "query", "query_radius", "atleast_1d", "squeeze", "ravel", "asarray", "array", "concatenate"}
+
+    def kind_of(e, defs, depth=0):
+        if depth > 6 or e is None:
+            return None
+        if isinstance(e, ast.Name):
+            ds_ = defs.defs.get(e.id, [])
+            ks = {kind_of(v, defs, depth + 1) for v, i_, l_ in ds_ if i_ is None and not l_}
+            if ds_ and len(ks) == 1:
+                return ks.pop()
+            return None
+        if isinstance(e, (ast.Compare,)):
+            return "mask"
+        if isinstance(e, ast.UnaryOp) and isinstance(e.op, ast.Invert):
+            return "mask" if kind_of(e.operand, defs, depth + 1) == "mask" else None
+        if isinstance(e, ast.BinOp) and isinstance(e.op, (ast.BitAnd, ast.BitOr, ast.BitXor)):
+            return "mask" if "mask" in (kind_of(e.left, defs, depth + 1), kind_of(e.right, defs, depth + 1)) else None
+        if isinstance(e, ast.Subscript):
+            v = e.value
+            if isinstance(v, ast.Call) and (dotted(v.func) or [""])[-1] in ("where", "nonzero") and len(v.args) == 1:
+                return "index"
+            return kind_of(v, defs, depth + 1) if isinstance(v, ast.Name) else None
+        if isinstance(e, ast.Call):
+            nm = (dotted(e.func) or [""])[-1] if dotted(e.func) else (e.func.attr if isinstance(e.func, ast.Attribute) else "")
+            if nm in MASK_FUNCS:
+                return "mask"
+            if nm in ("argwhere", "flatnonzero", "intersect1d", "union1d", "setdiff1d", "argsort", "query", "query_radius", "arange"):
+                return "index"
+            if nm in ("squeeze", "ravel", "asarray", "array", "atleast_1d", "astype", "flatten", "copy"):
+                inner = e.args[0] if (e.args and isinstance(e.func, ast.Attribute) and isinstance(e.func.value, ast.Name) and e.func.value.id in ("np", "numpy")) else (e.func.value if isinstance(e.func, ast.Attribute) else None)
+                return kind_of(inner, defs, depth + 1)
+        return None
+    n = 0
+    for f in P.all_functions():
+        if not (f.module.relpath.startswith("uxarray/subset/") or f.module.relpath.startswith("uxarray/cross_sections/")):
+            continue
+        defs = LocalDefs(f.node)
+        for call in ast.walk(f.node):
+            if not (isinstance(call, ast.Call) and isinstance(call.func, ast.Attribute) and call.func.attr == "isel"):
+                continue
+            for k in call.keywords:
+                if k.arg not in ("n_face", "n_node", "n_edge"):
+                    continue
+                n += 1
+                c = f"{f.key}:isel({k.arg}={norm(k.value)[:30]})"
+                kd = kind_of(k.value, defs)
+                # does the slicer of this dimension cast its argument to an integer dtype (then a mask becomes 0/1), or only use it as a fancy index (then a mask selects the same rows)?
+                sl = P.try_func(f"uxarray/grid/slice.py:{ {'n_face': '_slice_face_indices', 'n_node': '_slice_node_indices', 'n_edge': '_slice_edge_indices'}[k.arg] }")
+                casts = None
+                if sl is not None and len(sl.params()) > 1:
+                    ip = sl.params()[1]
+                    casts = any(isinstance(x, ast.Call) and (dotted(x.func) or [""])[-1] in ("asarray", "array", "astype") and any(kw.arg == "dtype" for kw in x.keywords) and x.args and norm(x.args[0]) == ip for x in ast.walk(sl.node))
+                if kd == "mask" and casts is False:
+                    run.holds("IDX/isel-takes-indices", c, where(f, call), f"a boolean mask; the slicer of {k.arg} uses its argument only as a fancy index, which selects the same rows")
+                elif kd == "mask" and casts is None:
+                    run.incomplete("IDX/isel-takes-indices", c, where(f, call), f"a boolean mask is passed for {k.arg}; its slicer was not found")
+                elif kd == "mask":
+                    run.violation("IDX/isel-takes-indices", c, where(f, call), f"`{norm(k.value)[:40]}` is a boolean mask; Grid.isel casts its argument to INT_DTYPE, so for {k.arg} the mask is read as the element indices 0 and 1 "
+                                  "(the subset consists of copies of elements 0 and 1 instead of the selected elements)")
+                else:
+                    run.holds("IDX/isel-takes-indices", c, where(f, call), "index array" if kd == "index" else "not a mask by construction")
+    run.floor("IDX/isel-takes-indices", n, 6)
+
+
+def _cross_section_source(run, P):
+    """The faces of a constant-latitude cross-section are those Grid.get_faces_at_constant_latitude returns (the edge scan decided by the other rules of this property).
+    Every definition of the index array handed to isel(n_face=...) in the cross-section accessors must be that call; another derivation is a second algorithm this
+    property's rules have not read."""
+    from ..astutil import LocalDefs
+    n = 0
+    for f in P.all_functions():
+        if not f.module.relpath.startswith("uxarray/cross_sections/") or f.name != "constant_latitude":
+            continue
+        defs = LocalDefs(f.node)
+        for call in ast.walk(f.node):
+            if not (isinstance(call, ast.Call) and isinstance(call.func, ast.Attribute) and call.func.attr == "isel"):
+                continue
+            kv = next((k.value for k in call.keywords if k.arg == "n_face"), None)
+            if kv is None:
+                continue
+            n += 1
+            c = f"{f.key}:faces-from-the-latitude-scan"
+
+            def leaves(e, depth=0):
+                if isinstance(e, ast.Name) and e.id in defs.defs and depth < 5:
+                    out = []
+                    for v, _i, _l in defs.defs[e.id]:
+                        out += leaves(v, depth + 1)
+                    return out
+                return [e]
+            other = [v for v in leaves(kv) if not (isinstance(v, ast.Call) and (dotted(v.func) or [""])[-1] == "get_faces_at_constant_latitude")]
+            if not other:
+                run.holds("F-PATH/cross-section-source", c, where(f, call), "the faces come from Grid.get_faces_at_constant_latitude on every path")
+            else:
+                run.incomplete("F-PATH/cross-section-source", c, where(f, call), f"on some path the faces come from `{norm(other[0])[:60]}`, not from Grid.get_faces_at_constant_latitude: a second way of finding the intersected faces that the rules of this property have not read")
+    run.floor("F-PATH/cross-section-source", n, 2)
+
